@@ -80,12 +80,9 @@ func NewPebbleScanner(dbPath string, opts PebbleScannerOptions) (*PebbleScanner,
 	// 1. Path Sanitization
 	// We prevent the engine from initializing in sensitive system roots.
 	// This captures cases where a misconfigured env var points the DB to /etc or /root.
-	absPath, err := filepath.EvalSymlinks(dbPath)
+	absPath, err := resolvePhysicalPath(dbPath)
 	if err != nil {
-		if !os.IsNotExist(err) {
-			return nil, fmt.Errorf("failed to resolve absolute path for db: %w", err)
-		}
-		absPath, _ = filepath.Abs(dbPath)
+		return nil, fmt.Errorf("failed to resolve absolute path for db: %w", err)
 	}
 	// Restricts database operations to non critical directories.
 	// Initializing a database in system roots could allow an attacker
@@ -176,6 +173,60 @@ func NewPebbleScanner(dbPath string, opts PebbleScannerOptions) (*PebbleScanner,
 	}
 
 	return scanner, nil
+}
+
+// resolvePhysicalPath returns the location dbPath would actually occupy: symlinks
+// are followed component by component, ".." is applied to the resolved directory,
+// and components below the deepest existing ancestor (a database that does not
+// exist yet) are kept as spelled. Unlike filepath.EvalSymlinks it does not fail on
+// a missing leaf, and unlike filepath.Abs it never cleans across a symlink.
+func resolvePhysicalPath(path string) (string, error) {
+	if !filepath.IsAbs(path) {
+		wd, err := os.Getwd()
+		if err != nil {
+			return "", err
+		}
+		path = wd + string(filepath.Separator) + path
+	}
+	sep := string(filepath.Separator)
+	cur := sep
+	parts := strings.Split(path, sep)
+	for links := 0; len(parts) > 0; {
+		c := parts[0]
+		parts = parts[1:]
+		switch c {
+		case "", ".":
+			continue
+		case "..":
+			cur = filepath.Dir(cur)
+			continue
+		}
+		next := filepath.Join(cur, c)
+		fi, err := os.Lstat(next)
+		if err != nil {
+			if os.IsNotExist(err) {
+				cur = next
+				continue
+			}
+			return "", err
+		}
+		if fi.Mode()&os.ModeSymlink != 0 {
+			if links++; links > 255 {
+				return "", fmt.Errorf("too many levels of symbolic links in %q", path)
+			}
+			target, err := os.Readlink(next)
+			if err != nil {
+				return "", err
+			}
+			if filepath.IsAbs(target) {
+				cur = sep
+			}
+			parts = append(strings.Split(target, sep), parts...)
+			continue
+		}
+		cur = next
+	}
+	return cur, nil
 }
 
 func (s *PebbleScanner) Close() error {
